@@ -89,9 +89,12 @@ def _ray_exit_convex(c, d, poly):
 def angle_set(pts, c, tier):
     base = list(np.linspace(-4 * math.pi, 4 * math.pi, 97 if tier == "quick" else 801))
     base += [k * math.pi / 4 for k in range(-8, 9)]
-    for (x, y) in pts:                      # directions of the vertices
+    # angles a rounding error away from 0 and 2 pi (np.mod maps tiny negative angles to exactly 2 pi)
+    base += [-5e-324, -1e-17, -2e-16, -math.sin(math.pi), 5e-324, 1e-17, 2 * math.pi - 4e-16, 2 * math.pi, 2 * math.pi + 4e-16,
+             -2 * math.pi, math.nextafter(0.0, -1.0), math.nextafter(2 * math.pi, 0.0)]
+    for (x, y) in pts:                      # directions of the vertices, and their floating-point neighbours
         a = math.atan2(y - c[1], x - c[0])
-        base += [a, a + 2 * math.pi, a - 2 * math.pi]
+        base += [a, a + 2 * math.pi, a - 2 * math.pi, math.nextafter(a, 10.0), math.nextafter(a, -10.0)]
     return base
 
 
